@@ -282,7 +282,20 @@ def serialize(ast, var_index):
             raise Unmodelled("non-interval operand of udiv")
         return t
 
+    seen = {}
+
     def go(n):
+        # the model identifies the fresh name created at a node with the node's TERM: two different ASTs must not serialise to
+        # one term (n-ary operators are written as left folds, so __add__(__add__(a, b), c) and __add__(a, b, c) would; claripy
+        # flattens the former at construction).  The intermediate results of a fold have names nothing else sees.
+        toks = go1(n)
+        if n.op not in _BOOL_OPS and n.op not in ("And", "Or", "Not", "BoolV"):
+            key = " ".join(toks)
+            if seen.setdefault(key, n.hash()) != n.hash():
+                raise Unmodelled("two ASTs with one serialisation")
+        return toks
+
+    def go1(n):
         op = n.op
         if op == "BVS":
             if n.args[0] not in var_index:
@@ -508,6 +521,73 @@ def gen_named(rng, vw, nested=None):
     if r < 0.91:
         return (rng.choice(["and", "or"]), t, gen_bool(rng, vw, 1))
     return ("if", t, derive(rng, vw, v, 1), ("var", v))
+
+
+# ------------------------------------------------------------------------------------------------ directed shapes: SHARED derived nodes
+# Every operation that builds a new interval gives it a fresh name, and the backend converts an AST once (Backend.convert keeps
+# the object of every AST; ASTs are hash-consed): the two occurrences of one sub-AST d are ONE object with ONE name.  The name
+# survives zero_extend (non-wrapping), sign_extend (non-negative), a full-width extract and an If that selects, so
+# zext(k, d) == sext(k, d) is answered by NAME.  The shapes put one derived node d (an extraction or a one/two-step derivation of
+# a variable, a join, a constant) under two different name-keeping contexts on the two sides of a comparison.
+def decided_cond(rng, vw, annos, u):
+    """a comparison of variable u with a constant; about half of them are decided by u's annotation"""
+    w = vw[u]
+    if annos is not None and rng.random() < 0.7:
+        t = annos[u]
+        lo, hi = (t[2], t[3]) if t[2] <= t[3] else (0, M(w))
+        return rng.choice([("cmp", "ULE", ("var", u), ("const", hi, w)), ("cmp", "UGE", ("var", u), ("const", lo, w)),
+                           ("cmp", "UGT", ("var", u), ("const", hi, w)), ("cmp", "ULT", ("var", u), ("const", lo, w)),
+                           ("cmp", "ULE", ("var", u), ("const", rng.randrange(1 << w), w))])
+    return ("cmp", rng.choice(CMP_OPS), ("var", u), ("const", rng.randrange(1 << w), w))
+
+
+def gen_shared(rng, vw, annos=None):
+    """a Boolean tree comparing two name-keeping contexts of ONE derived node"""
+    v = rng.randrange(len(vw))
+    w = vw[v]
+    others = [i for i, x in enumerate(vw) if x == w and i != v]
+    u = rng.choice(others) if others else v
+    r = rng.random()
+    # the shared node d (dw bits)
+    if r < 0.35 and w >= 2:
+        j = rng.randrange(1, w)                      # an extraction: the top cut is non-negative when the variable is small
+        lo = rng.choice([0, w - j, rng.randrange(0, w - j + 1)])
+        d, dw = ("extract", lo + j - 1, lo, ("var", v)), j
+    elif r < 0.75:
+        d, dw = derive(rng, vw, v, rng.choice([1, 1, 2])), w
+    elif r < 0.9:
+        d, dw = ("if", decided_cond(rng, vw, None, u), ("var", v), ("var", u) if u != v else ("const", rng.randrange(1 << w), w)), w
+    else:
+        d, dw = ("const", rng.randrange(1 << w), w), w
+    k = rng.randrange(1, 3)
+    j = rng.randrange(1, 3)
+    z = ("const", rng.randrange(1 << dw), dw)
+    sel = lambda t: ("if", decided_cond(rng, vw, annos, u), t, z) if rng.random() < 0.5 else ("if", decided_cond(rng, vw, annos, u), z, t)  # noqa: E731
+    ext = lambda: rng.choice(["zext", "sext"])  # noqa: E731
+    shape = rng.choice(["ext-ext", "ext-ext", "ext-ext", "extract-full", "ext-ext-ext", "ext-ext-ext", "select", "select-ext", "shift", "two-selects"])
+    if shape == "ext-ext":              # zext(k, d) cmp sext(k, d)  (the witness of the thorough sweep)
+        L, R = (ext(), k, d), (ext(), k, d)
+    elif shape == "extract-full":       # a full-width extract (claripy removes it when it can) against a selecting If
+        L, R = ("extract", dw - 1, 0, d), sel(d)
+    elif shape == "ext-ext-ext":        # two extensions of different width, compared after another extension
+        L, R = (ext(), j, (ext(), k, d)), (ext(), j + k, d)
+    elif shape == "select":             # d against an If that (often) selects d
+        L, R = d, sel(d)
+    elif shape == "select-ext":
+        L, R = (ext(), k, sel(d)), (ext(), k, d)
+    elif shape == "shift":              # a shift keeps the name only of an empty operand
+        L, R = ("bin", rng.choice(["shl", "lshr", "ashr"]), d, ("const", rng.randrange(0, dw + 1) & M(dw), dw)), d
+    else:
+        L, R = sel(d), sel(d)
+    if rng.random() < 0.3:
+        L, R = R, L
+    t = ("cmp", rng.choice(["eq", "ne", "eq", "ne", "eq", "ne"] + CMP_OPS), L, R)
+    r = rng.random()
+    if r < 0.8:
+        return t
+    if r < 0.9:
+        return ("not", t)
+    return (rng.choice(["and", "or"]), t, gen_bool(rng, vw, 1))
 
 
 # ------------------------------------------------------------------------------------------------ stateful sequences through the backend
